@@ -10,7 +10,10 @@ import impl
 import seedprog
 
 RULE = ("random seeded programs (sequences, nested scans, cond inside scan, scan inside cond, vectorised sites) with the key-revealing probe: "
-        "keys observed at all sites pairwise distinct and equal to the Lean model's key paths; real-distribution programs whose sites share "
+        "keys observed at all sites pairwise distinct and equal to the Lean model's key paths; programs whose sites sit under 0-2 nested "
+        "modular_vmaps (lanes from in_axes=() or from a batched parameter) with an own sample_shape, observed with a probe that also reveals the "
+        "static sample_shape and parameter batch shape of the executing sampler call: one call per site occurrence, key / sample_shape / "
+        "returned shape equal to Model/SeedVec.lean; real-distribution programs whose sites share "
         "parameters (sequence, scan, vmap of scan, scan of vmap, cond then site, cond in scan, nested repeat, sample_shape site under vmap): "
         "all draws pairwise unequal; correlation / marginal tests over key batches (thorough: 4096 keys); non-trivial = >=2 sites")
 
@@ -22,7 +25,8 @@ def check_keys(G, ctx, prog, key_int):
     key = jr.key(key_int)
     case = {"kind": "site-keys", "prog": json.dumps(prog), "key": key_int}
     try:
-        obs, ok_v = seedprog.observed_outputs(prog, G.seed(f)(key, jnp.float32(0.5)))
+        outs = G.seed(f)(key, jnp.float32(0.5))
+        obs, ok_v = seedprog.observed_outputs(prog, outs)
     except Exception as ex:
         ctx.property_failure(None, f"seed(f) raised {type(ex).__name__}: {str(ex)[:160]}", case)
         return
@@ -37,6 +41,25 @@ def check_keys(G, ctx, prog, key_int):
     want = seedprog.expected_outputs(prog, key)
     if set(want) != set(obs) or any(not np.array_equal(want[k], obs[k]) for k in want):
         ctx.correspondence_break("Seed.siteKeys (Lean) + jax.random vs observed site keys", "a site received another key than the model's path", case)
+    # vectorised sites (Model/SeedVec.lean): one sampler call per site occurrence with the model's key, the model's
+    # `sample_shape` (where the probe reveals it) and the model's returned-array shape
+    calls, one_call = seedprog.observed_calls(prog, outs)
+    wantc = seedprog.expected_calls(prog, key)
+    name = "SeedVec.siteCalls (Lean) vs observed sampler calls"
+    if not one_call:
+        ctx.correspondence_break(name, "the lanes of a vectorised site do not stem from one sampler call with one key", case)
+    elif set(wantc) != set(calls):
+        ctx.correspondence_break(name, "the sampler calls are not the model's (site, scan iterations) occurrences", case)
+    else:
+        for k, (kb, ss, ret) in wantc.items():
+            okb, oss, oret = calls[k]
+            if not np.array_equal(kb, okb) or (oss is not None and tuple(oss) != tuple(ss)) or tuple(oret) != tuple(ret):
+                cs = dict(case)
+                cs["call"] = {"site": list(k), "model_sample_shape": list(ss), "observed_sample_shape": None if oss is None else list(oss),
+                              "model_returned_shape": list(ret), "observed_returned_shape": list(oret)}
+                ctx.correspondence_break(name, f"site {k}: sample_shape/returned shape/key of the sampler call differ from the model "
+                                               f"(model {ss}/{ret}, observed {oss}/{oret})", cs)
+                break
     ctx.case(sample=case if ctx.coverage["evaluations"] % 9 == 0 else None,
              nontrivial_key=json.dumps(prog) if len(obs) >= 2 else None)
     ctx.count("key-programs")
@@ -141,6 +164,11 @@ def shard(ctx, shard_i, n):
     for i in range(n):
         prog = seedprog.gen_prog(rng, rng.choice([1, 2, 2, 3] if ctx.thorough else [2, 2, 3]))
         check_keys(G, ctx, prog, ctx.seed * 1000 + shard_i * 50 + i)
+    vrng = random.Random(ctx.seed * 607 + shard_i)
+    for i in range((n + 1) // 2):
+        prog = seedprog.gen_prog_vec(vrng, vrng.choice([0, 1, 1, 2]))
+        check_keys(G, ctx, prog, ctx.seed * 1000 + shard_i * 50 + 25 + i)
+        ctx.count("vectorised-programs")
 
 
 def run(ctx, audit):
@@ -153,13 +181,13 @@ def replay(ctx, payload):
     G = impl.load()
     c = payload.get("case") or {}
     if c.get("kind") == "site-keys":
-        def tup(x):
-            return [tuple(tup(z) if isinstance(z, list) else z for z in y) for y in x]
-        check_keys(G, ctx, tup(json.loads(c["prog"])), c["key"])
+        check_keys(G, ctx, seedprog.from_json(json.loads(c["prog"])), c["key"])
     else:
         check_real(G, ctx, 600)
     for i in ctx.issues:
         print("REPRODUCED:", i["what"])
-    if not ctx.issues:
+    for i in ctx.corr_breaks:
+        print("CORRESPONDENCE:", i["what"])
+    if not ctx.issues and not ctx.corr_breaks:
         print("not reproduced")
     return 1 if ctx.issues else 0
